@@ -144,5 +144,80 @@ theorem tokens_desugarList (rp : Key → Nat) (h : ∀ k, env.rawPkh (rp k) = en
     simp [desugarList, threshTokens, tokens_desugar rp h x, tokens_desugarList rp h false xs]
 end
 
+/-! ### renaming keys (`to_x_only_pubkey` on a Taproot miniscript over full keys) -/
+
+/-- the key environment seen through a renaming `f` -/
+def envRe (env : KeyEnv) (f : Key → Key) : KeyEnv where
+  ser k := env.ser (f k)
+  sortKey k := env.sortKey (f k)
+  pkh k := env.pkh (f k)
+  rawPkh := env.rawPkh
+  hashVal := env.hashVal
+
+theorem insertByKey_map (f : Key → Key) (k : Key) (l : List Key) :
+    insertByKey env (f k) (l.map f) = (insertByKey (envRe env f) k l).map f := by
+  induction l with
+  | nil => rfl
+  | cons x l ih =>
+    have hs : (envRe env f).sortKey x = env.sortKey (f x) := rfl
+    have hk : (envRe env f).sortKey k = env.sortKey (f k) := rfl
+    simp only [List.map_cons, insertByKey, hs, hk]
+    by_cases hb : bytesLe (env.sortKey (f x)) (env.sortKey (f k)) = true
+    · simp only [hb, if_true, List.map_cons, ih]
+    · simp only [hb, if_false, List.map_cons, Bool.false_eq_true]
+
+theorem sortKeys_map (f : Key → Key) (ks : List Key) :
+    sortKeys env (ks.map f) = (sortKeys (envRe env f) ks).map f := by
+  unfold sortKeys
+  suffices ∀ acc : List Key, (ks.map f).foldl (fun acc k => insertByKey env k acc) (acc.map f)
+      = (ks.foldl (fun acc k => insertByKey (envRe env f) k acc) acc).map f by simpa using this []
+  induction ks with
+  | nil => intro acc; rfl
+  | cons k ks ih =>
+    intro acc
+    simp only [List.map_cons, List.foldl_cons, insertByKey_map]
+    exact ih _
+
+theorem encodeMultiA_map (f : Key → Key) (ks : List Key) :
+    encodeMultiA env (ks.map f) = encodeMultiA (envRe env f) ks := by
+  cases ks with
+  | nil => rfl
+  | cons k ks => simp [encodeMultiA, envRe, List.flatMap_map]
+
+mutual
+/-- encoding the renamed miniscript = encoding the original with every key serialised through
+the renaming: a Taproot miniscript over full keys encodes to the script of its x-only translation -/
+theorem encode_reKey (f : Key → Key) : (ms : Ms) →
+    encode env ctx (reKey f ms) = encode (envRe env f) ctx ms
+  | .pkK k => by simp [reKey, encode, envRe]
+  | .pkH k => by simp [reKey, encode, envRe]
+  | .multi k ks => by simp [reKey, encode, envRe, List.map_map, Function.comp_def]
+  | .sortedMulti k ks => by
+    simp only [reKey, encode, sortKeys_map, List.map_map, List.length_map]
+    simp [envRe, Function.comp_def]
+  | .multiA k ks => by simp [reKey, encode, encodeMultiA_map]
+  | .sortedMultiA k ks => by simp [reKey, encode, sortKeys_map, encodeMultiA_map]
+  | .alt x => by simp [reKey, encode, encode_reKey f x]
+  | .swap x => by simp [reKey, encode, encode_reKey f x]
+  | .check x => by simp [reKey, encode, encode_reKey f x]
+  | .dupIf x => by simp [reKey, encode, encode_reKey f x]
+  | .verify x => by simp [reKey, encode, encode_reKey f x]
+  | .nonZero x => by simp [reKey, encode, encode_reKey f x]
+  | .zeroNotEqual x => by simp [reKey, encode, encode_reKey f x]
+  | .andV l r => by simp [reKey, encode, encode_reKey f l, encode_reKey f r]
+  | .andB l r => by simp [reKey, encode, encode_reKey f l, encode_reKey f r]
+  | .orB l r => by simp [reKey, encode, encode_reKey f l, encode_reKey f r]
+  | .orD l r => by simp [reKey, encode, encode_reKey f l, encode_reKey f r]
+  | .orC l r => by simp [reKey, encode, encode_reKey f l, encode_reKey f r]
+  | .orI l r => by simp [reKey, encode, encode_reKey f l, encode_reKey f r]
+  | .andOr a b c => by simp [reKey, encode, encode_reKey f a, encode_reKey f b, encode_reKey f c]
+  | .thresh k xs => by simp [reKey, encode, encodeThresh_reKey f true xs]
+  | .tru | .fls | .rawPkH _ | .after _ | .older _ | .hash _ _ => by simp [reKey, encode, envRe]
+theorem encodeThresh_reKey (f : Key → Key) (first : Bool) : (xs : MsList) →
+    encodeThresh env ctx first (reKeyList f xs) = encodeThresh (envRe env f) ctx first xs
+  | .nil => by simp [reKeyList, encodeThresh]
+  | .cons x xs => by simp [reKeyList, encodeThresh, encode_reKey f x, encodeThresh_reKey f false xs]
+end
+
 end TokL
 end MsVerif
